@@ -61,9 +61,11 @@ fn grid(thorough: bool) -> Vec<(String, LzOpts)> {
         o.bt4 = depth % 2 == 0;
         v.push((format!("depth={depth}"), o));
     }
-    for plen in [0usize, 1, 70000] {
+    for plen in [0usize, 1, 65536, 65537, 70000, 140000] {
         let mut o = base();
-        o.preset = Some(vec![7u8; plen]);
+        // position-dependent content: a writer and a reader that keep different parts of an over-long preset
+        // dictionary disagree about it
+        o.preset = Some((0..plen).map(|k| ((k * 31 + k / 251) % 253) as u8).collect());
         v.push((format!("preset_len={plen}"), o));
     }
     v
@@ -148,6 +150,16 @@ pub fn run(rep: &mut Report, rng: &mut Rng, thorough: bool, seed: u64, outdir: &
 pub fn run_point(rep: &mut Report, rng: &mut Rng, thorough: bool, index: usize) {
     let inputs: Vec<Vec<u8>> = vec![gen_data(rng, "text", 300), gen_data(rng, "mixed", if thorough { 400_000 } else { 90_000 }), vec![]];
     for (point, o) in grid(thorough).into_iter().skip(index).take(1) {
+        let mut inputs = inputs.clone();
+        if let Some(p) = &o.preset {
+            if p.len() > 600 {
+                // data that repeats the end and the beginning of the preset dictionary
+                let mut d = p[p.len() - 300..].to_vec();
+                d.extend_from_slice(&p[..300]);
+                d.extend_from_slice(&p[p.len() - 500..p.len() - 100]);
+                inputs.insert(0, d);
+            }
+        }
         let mut first = true;
         for data in &inputs {
             let huge_dict = o.dict > (1 << 28);
